@@ -534,7 +534,7 @@ pub fn strategy() -> BoxedStrategy<Case> {
     (prop_oneof![Just(Api::Command), Just(Api::Capability), Just(Api::CapabilityAsync)], prop_oneof![Just(Expect::Bytes), Just(Expect::Str), Just(Expect::Json), Just(Expect::Typed)], reply).prop_map(|(api, expect, reply)| Case { api, expect, reply }).boxed()
 }
 
-const KNOWN_SIGS: &[&str] = &["panic-status-outside-http-types-table", "panic-non-ascii-header", "content-type-octet-stream-injected", "utf8-bom-retained"];
+pub const KNOWN_SIGS: &[&str] = &["panic-status-outside-http-types-table", "panic-non-ascii-header", "content-type-octet-stream-injected", "utf8-bom-retained"];
 
 fn reproducer(sig: &str) -> Option<Case> {
     let resp = |status, headers: Vec<(&str, &str)>, body: &[u8], expect| Case { api: Api::Command, expect, reply: Reply::Response { status, headers: headers.into_iter().map(|(a, b)| (a.to_string(), b.to_string())).collect(), body: body.to_vec() } };
